@@ -84,6 +84,57 @@ func (c19) step(t []string) string {
 			}
 		}
 		return itoa(bad) + " " + first
+	case "sendrace":
+		// sendrace <mode> <tmo_us> <rounds> <procs>: SendTimeout whose hand-over lands at about the moment its timer fires.
+		// mode 0: unbuffered channel, a receiver that starts receiving at tmo ± a few tens of µs; mode 1: a buffered channel with room and a
+		// timeout of tmo NANOseconds (the timer may fire before the select is even polled).  Whatever wins, the result must be true exactly
+		// when the value was handed over (seen by the receiver / sitting in the buffer).  result: number of bad rounds and the first one.
+		need(t, 5)
+		mode, tmo, rounds, procs := atoi(t[1]), atoi(t[2]), atoi(t[3]), atoi(t[4])
+		old := runtime.GOMAXPROCS(procs)
+		defer runtime.GOMAXPROCS(old)
+		bad, first := 0, "-"
+		note := func(i int, ok, handed bool) {
+			if ok != handed {
+				bad++
+				if first == "-" {
+					first = "round" + itoa(i) + ":returned=" + btoa(ok) + ":handed=" + btoa(handed)
+				}
+			}
+		}
+		if mode == 1 {
+			ch := make(chan int, 4)
+			for i := 0; i < rounds; i++ {
+				before := len(ch)
+				ok := chans.SendTimeout(ch, i, time.Duration(tmo+i%5))
+				note(i, ok, len(ch) == before+1)
+				if len(ch) == cap(ch) {
+					drain(ch)
+				}
+			}
+			return itoa(bad) + " " + first
+		}
+		for i := 0; i < rounds; i++ {
+			ch := make(chan int)
+			stop := make(chan struct{})
+			got := make(chan bool, 1)
+			d := time.Duration(tmo)*time.Microsecond + time.Duration(i%9-4)*10*time.Microsecond
+			go func() {
+				time.Sleep(d)
+				select {
+				case <-ch:
+					got <- true
+				case <-stop:
+					got <- false
+				}
+			}()
+			ok := chans.SendTimeout(ch, i, time.Duration(tmo)*time.Microsecond)
+			if !ok {
+				close(stop) // the helper said "not sent": the receiver may stop waiting (if it already has the value, that is the violation)
+			}
+			note(i, ok, <-got)
+		}
+		return itoa(bad) + " " + first
 	case "recvtimeout", "recvcontext":
 		need(t, 6)
 		capacity, fill, closed, arg, peer := atoi(t[1]), atoi(t[2]), atoi(t[3]) != 0, atoi(t[4]), atoi(t[5])
